@@ -1,3 +1,4 @@
+import ast
 import token
 import tokenize
 from pathlib import Path
@@ -11,6 +12,31 @@ from inline_snapshot._utils import simple_token
 from inline_snapshot._utils import value_to_token
 
 from ._utils import ignore_tokens
+
+
+def token_range_of(atok, node):
+    """First and last token of node, including redundant parentheses around it
+    like in `[(1+2j)]`."""
+    tokens = list(atok.get_tokens(node))
+    first, last = tokens[0], tokens[-1]
+
+    # the parentheses of a call belong to the call and not to its argument
+    parent = getattr(node, "parent", None)
+    parent_last = None
+    if isinstance(parent, ast.Call):
+        parent_last = list(atok.get_tokens(parent))[-1]
+
+    while True:
+        prev_token = atok.prev_token(first)
+        next_token = atok.next_token(last)
+        if (
+            prev_token.string == "("
+            and next_token.string == ")"
+            and (parent_last is None or next_token.index != parent_last.index)
+        ):
+            first, last = prev_token, next_token
+        else:
+            return first, last
 
 
 class SourceFile:
@@ -47,12 +73,13 @@ class SourceFile:
         return self._token_to_code(value_to_token(value))
 
     def _token_of_node(self, node):
+        first, last = token_range_of(self.asttokens(), node)
 
         return list(
             normalize(
                 [
                     simple_token(t.type, t.string)
-                    for t in self._source.asttokens().get_tokens(node)
+                    for t in self._source.asttokens().token_range(first, last)
                     if t.type not in ignore_tokens
                 ]
             )
